@@ -32,7 +32,7 @@ ANCHORS = [(_BD, "BaseDiscretizer._prepare_data"), (_BD, "BaseDiscretizer.fit"),
 DECIDING_ANCHORS = [(_BD, "BaseDiscretizer._prepare_data")]
 EXHAUSTIVE = {"quick": True, "thorough": True}
 EXHAUSTIVE_NOTE = "the (defect x class x state) grid is enumerated completely; the samples inside each cell are random"
-SAMPLES = {"quick": 5, "thorough": 40}
+SAMPLES = {"quick": 5, "thorough": 80}
 REQUIRED_COUNTERS = {"quick": {"malformed_calls": 400, "snapshots_compared": 150}, "thorough": {"malformed_calls": 6000, "snapshots_compared": 2000}}
 
 
